@@ -27,11 +27,12 @@ type Session struct {
 	Kind      string            `json:"kind"`
 	Sector    int               `json:"sector"`
 	FileChunk int               `json:"file_chunk,omitempty"`
-	StdoutTTY bool              `json:"stdout_tty,omitempty"` // stdout is a terminal (or /dev/null): a character device
-	Env       [][2]string       `json:"env,omitempty"`        // environment variables of every process
-	Clock     simos.ClockPolicy `json:"clock,omitempty"`      // how simulated time passes for every process
-	Links     [][2]string       `json:"links,omitempty"`      // symbolic links: name, target
-	Arg0      string            `json:"arg0,omitempty"`       // how the binary is called
+	StdoutTTY bool              `json:"stdout_tty,omitempty"`    // stdout is a terminal (or /dev/null): a character device
+	Env       [][2]string       `json:"env,omitempty"`           // environment variables of every process
+	Clock     simos.ClockPolicy `json:"clock,omitempty"`         // how simulated time passes for every process
+	Sched     uint64            `json:"schedule_seed,omitempty"` // which goroutine runs when, if the tree has any
+	Links     [][2]string       `json:"links,omitempty"`         // symbolic links: name, target
+	Arg0      string            `json:"arg0,omitempty"`          // how the binary is called
 	Files     []File            `json:"files"`
 	Dirs      []string          `json:"dirs,omitempty"`
 	Procs     []ProcSpec        `json:"procs"`
@@ -112,7 +113,7 @@ func runSession(s Session, fs *simos.FS, withModel bool, stopAfterFault bool) *s
 		if p.Arg0 == "" {
 			p.Arg0 = s.Arg0
 		}
-		res := runProc(fs, p, IOCfg{s.Sector, s.FileChunk, s.StdoutTTY, s.Env, s.Clock}, prev)
+		res := runProc(fs, p, IOCfg{s.Sector, s.FileChunk, s.StdoutTTY, s.Env, s.Clock, s.Sched}, prev)
 		r.Res = append(r.Res, res)
 		r.FSPost = append(r.FSPost, fs.Clone())
 		r.Log = append(r.Log, eventLog(i, res)...)
